@@ -188,6 +188,29 @@ func TestZZVerifEmit(t *testing.T) {
 			})
 		}
 	}
+	// complex numbers: + - * == != and unary - on both complex types, conversions between them
+	zzComplexKinds := []types.BasicKind{types.Complex64, types.Complex128}
+	for _, k := range zzComplexKinds {
+		k := k
+		T := types.Typ[k]
+		for _, op := range []token.Token{token.ADD, token.SUB, token.MUL, token.QUO, token.EQL, token.NEQ} {
+			op := op
+			res := types.Type(T)
+			if isCmp(op) {
+				res = boolT
+			}
+			mk(fmt.Sprintf("binop__%s__%s__%s", zzOpName(op), zzName(k), zzName(k)), []types.Type{T, T}, res, func(b Builder, fn Function) Expr {
+				return b.BinOp(op, fn.Param(0), fn.Param(1))
+			})
+		}
+		mk(fmt.Sprintf("unop__SUB__%s", zzName(k)), []types.Type{T}, T, func(b Builder, fn Function) Expr { return b.UnOp(token.SUB, fn.Param(0)) })
+		for _, k2 := range zzComplexKinds {
+			k2 := k2
+			mk(fmt.Sprintf("conv__%s__%s", zzName(k), zzName(k2)), []types.Type{T}, types.Typ[k2], func(b Builder, fn Function) Expr {
+				return b.Convert(prog.Type(types.Typ[k2], InGo), fn.Param(0))
+			})
+		}
+	}
 	if err := os.WriteFile(out, []byte(pkg.String()), 0o644); err != nil {
 		t.Fatal(err)
 	}
